@@ -430,7 +430,15 @@ func (m *Muxer) readLoop() {
 		m.verifPt("readLoop.afterLookup")
 		recvChan.mu.Lock()
 		if recvChan.ch == nil {
+			// The receiver was unregistered after we looked it up. This is the same
+			// as not finding it above, and we must not exit without stopping the muxer
 			recvChan.mu.Unlock()
+			m.sendError(
+				fmt.Errorf(
+					"received message for unknown protocol ID %d",
+					msg.GetProtocolId(),
+				),
+			)
 			return
 		}
 
